@@ -212,6 +212,7 @@ def archetype_items(u):
                ("C01.push.len", "final(self).length == old(self).length + 1"),
                ("C01.push.ids", "final(self).ids() == old(self).ids().push(id)"),
                ("C01.push.rows", "final(self).rows() == old(self).rows().push(vx_entity_row(entity))"),
+               ("C13.count", "final(entity_allocator).active_count() == old(entity_allocator).active_count() + 1"),
                ("C02.push.allocated", "Allocator::allocate_post(old(entity_allocator), final(entity_allocator), Location { identifier: old(self).key(), index: old(self).length }, id)"),
            ],
            hints=[Hint("start", "let ghost vx_self0 = *self; let ghost vx_alloc0 = *entity_allocator;"),
@@ -237,6 +238,7 @@ def archetype_items(u):
                ("C01.extend.ids", "final(self).ids() == old(self).ids() + ids@"),
                ("C01.extend.rows", "final(self).rows() == old(self).rows() + vx_batch_rows(entities.entities)"),
                ("C01.extend.one_id_per_row", "ids@.len() == vx_batch_rows(entities.entities).len()"),
+               ("C13.count", "final(entity_allocator).active_count() == old(entity_allocator).active_count() + ids@.len()"),
                ("C02.extend.fresh", "forall|k: int| 0 <= k < ids@.len() ==> !old(entity_allocator).resolves(#[trigger] ids@[k])"),
                ("C01.extend.others", "forall|i: entity::Identifier| old(entity_allocator).resolves(i) ==> final(entity_allocator).resolves(i) && final(entity_allocator).view()[i] == old(entity_allocator).view()[i]"),
                ("C01.extend.dom", "forall|i: entity::Identifier| final(entity_allocator).resolves(i) == (old(entity_allocator).resolves(i) || ids@.contains(i))"),
@@ -277,6 +279,7 @@ def archetype_items(u):
                ("C01.remove.rows", "final(self).rows() == vx_swap_remove(old(self).rows(), index as int)"),
                ("C02.remove.fixup", "final(self).agrees(final(entity_allocator))"),
                ("C02.remove.alloc_view", "final(entity_allocator).view() == (if index < old(self).length - 1 { old(entity_allocator).view().insert(old(self).ids().last(), Location { identifier: old(self).key(), index: index }) } else { old(entity_allocator).view() })"),
+               ("C13.count", "final(entity_allocator).active_count() == old(entity_allocator).active_count()"),
                ("frame.free", "final(entity_allocator).free@ == old(entity_allocator).free@"),
                ("frame.slots_len", "final(entity_allocator).slots@.len() == old(entity_allocator).slots@.len()"),
                ("frame.generations", "forall|s: int| 0 <= s < old(entity_allocator).slots@.len() ==> (#[trigger] final(entity_allocator).slots@[s]).generation == old(entity_allocator).slots@[s].generation"),
@@ -296,6 +299,7 @@ def archetype_items(u):
                ("C01.pop.returns_row", "r.0 == old(self).ids()[index as int] && vx_buffer_row(r.1@) == old(self).rows()[index as int]"),
                ("C02.pop.fixup", "final(self).agrees(final(entity_allocator))"),
                ("C02.pop.alloc_view", "final(entity_allocator).view() == (if index < old(self).length - 1 { old(entity_allocator).view().insert(old(self).ids().last(), Location { identifier: old(self).key(), index: index }) } else { old(entity_allocator).view() })"),
+               ("C13.count", "final(entity_allocator).active_count() == old(entity_allocator).active_count()"),
                ("frame.free", "final(entity_allocator).free@ == old(entity_allocator).free@"),
                ("frame.slots_len", "final(entity_allocator).slots@.len() == old(entity_allocator).slots@.len()"),
                ("frame.generations", "forall|s: int| 0 <= s < old(entity_allocator).slots@.len() ==> (#[trigger] final(entity_allocator).slots@[s]).generation == old(entity_allocator).slots@[s].generation"),
@@ -331,6 +335,7 @@ def archetype_items(u):
                ("C02.clear.dead", "forall|k: int| 0 <= k < old(self).length ==> !final(entity_allocator).resolves(#[trigger] old(self).ids()[k])"),
                ("C01.clear.others", "forall|i: entity::Identifier| final(entity_allocator).resolves(i) == (old(entity_allocator).resolves(i) && !old(self).ids().contains(i))"),
                ("C01.clear.values", "forall|i: entity::Identifier| final(entity_allocator).resolves(i) ==> final(entity_allocator).view()[i] == old(entity_allocator).view()[i]"),
+               ("C13.count", "final(entity_allocator).active_count() + old(self).length == old(entity_allocator).active_count()"),
                ("frame.slots_len", "final(entity_allocator).slots@.len() == old(entity_allocator).slots@.len()"),
                ("frame.generations", "forall|s: int| 0 <= s < old(entity_allocator).slots@.len() ==> (#[trigger] final(entity_allocator).slots@[s]).generation == old(entity_allocator).slots@[s].generation"),
            ],
@@ -343,6 +348,7 @@ def archetype_items(u):
                ("clear.dom", "forall|i: entity::Identifier| entity_allocator.resolves(i) == (vx_alloc0.resolves(i) && !vx_self0.ids().take(vx_it.index@).contains(i))"),
                ("clear.values", "forall|i: entity::Identifier| entity_allocator.resolves(i) ==> entity_allocator.view()[i] == vx_alloc0.view()[i]"),
                ("clear.slots_len", "entity_allocator.slots@.len() == vx_alloc0.slots@.len()"),
+               ("clear.count", "entity_allocator.active_count() + vx_it.index@ == vx_alloc0.active_count()"),
                ("clear.generations", "forall|s: int| 0 <= s < vx_alloc0.slots@.len() ==> (#[trigger] entity_allocator.slots@[s]).generation == vx_alloc0.slots@[s].generation"),
                ("clear.distinct", "forall|r: int, q: int| 0 <= r < q < vx_self0.length ==> vx_self0.ids()[r] != vx_self0.ids()[q]"),
            ])],
